@@ -18,6 +18,13 @@ package c09
 // simulate mode on a branch of the check state).  Injection points: at the k-th yield, between
 // BeginBlock and the tx ("pre"), after the tx ("post"), after Commit ("interblock").
 //
+// Injection point "parked": the (single) request runs in its OWN goroutine and is parked INSIDE a FunToken precompile
+// method — the application logger blocks the goroutine that first logs the bank keeper's "minted coins from module
+// account" (inside sendToBank) or "burned tokens from module account" (inside sendToEvm) — while both transactions of
+// the block are delivered; then it is released.  This is the schedule sequential injection cannot produce: state that
+// lives on a process-wide singleton (the precompile objects, keeper fields) and is mutated for the duration of a
+// request is visible to DeliverTx only while the request is inside.
+//
 // The block holds a second, plain EVM transfer (S -> Z) after the scenario tx, so "post" is an injection
 // between two transactions.  The same block is executed on a second replica built from the same genesis bytes WITHOUT the
 // queries.  Observables: app hashes of the scenario block and of the following empty block equal?,
@@ -87,7 +94,8 @@ type c09Input struct {
 	Bal     [3]int64   `json:"bal"`    // unibi of X, Y, Z committed before the scenario block
 	Steps   []c09Step  `json:"steps"`  // deliver script
 	Revert  bool       `json:"revert"` // init code ends with REVERT (tx fails inside the VM)
-	Point   string     `json:"point"`  // yield | pre | post | interblock
+	Point   string     `json:"point"`  // yield | pre | post | interblock | parked
+	Park    string     `json:"park"`   // point=parked: mint | burn (log line of the bank keeper the request is parked at)
 	K       int        `json:"k"`      // for point=yield: index among the yield steps
 	Queries []c09Query `json:"queries"`
 }
@@ -105,6 +113,7 @@ type c09Obs struct {
 	QRes     []string `json:"qres"`     // per query: ok | vmerr | err | panic
 	QGas     []int64  `json:"qgas"`     // per query: gas used by a simulated tx (0 for other kinds)
 	Injected bool     `json:"injected"` // the injection point was reached
+	Parked   bool     `json:"parked"`   // point=parked: the request was really inside the precompile while the txs were delivered
 	Panic    string   `json:"panic"`    // Go panic escaping DeliverTx ("" if none)
 }
 
@@ -138,6 +147,50 @@ func detAcc(tag byte) evmtest.EthPrivKeyAcc {
 	return evmtest.EthPrivKeyAcc{EthAddr: addr, NibiruAddr: eth.EthAddrToNibiruAddr(addr), PrivKey: priv, KeyringSigner: evmtest.NewSigner(priv)}
 }
 
+// parkLogger is the application logger of a replica. When armed, the first goroutine that logs the chosen Info
+// message is parked until release() — what a slow log sink or the Go scheduler can do at any time.
+type parkLogger struct {
+	mu      sync.Mutex
+	parkOn  string
+	reached chan struct{}
+	resume  chan struct{}
+}
+
+func (l *parkLogger) Debug(string, ...interface{})     {}
+func (l *parkLogger) Error(string, ...interface{})     {}
+func (l *parkLogger) With(...interface{}) log.Logger   { return l }
+func (l *parkLogger) Info(msg string, _ ...interface{}) {
+	l.mu.Lock()
+	if l.parkOn == "" || msg != l.parkOn {
+		l.mu.Unlock()
+		return
+	}
+	l.parkOn = "" // one shot
+	reached, resume := l.reached, l.resume
+	l.mu.Unlock()
+	close(reached)
+	<-resume
+}
+
+func (l *parkLogger) arm(msg string) (reached chan struct{}) {
+	l.mu.Lock()
+	defer l.mu.Unlock()
+	l.parkOn, l.reached, l.resume = msg, make(chan struct{}), make(chan struct{})
+	return l.reached
+}
+
+func (l *parkLogger) release() {
+	l.mu.Lock()
+	defer l.mu.Unlock()
+	l.parkOn = ""
+	if l.resume != nil {
+		close(l.resume)
+		l.resume = nil
+	}
+}
+
+var parkLines = map[string]string{"mint": "minted coins from module account", "burn": "burned tokens from module account"}
+
 var yieldAddr = gethcommon.HexToAddress("0x0000000000000000000000000000000000000999")
 
 type yieldPC struct{ hook func() }
@@ -160,6 +213,8 @@ type world struct {
 	cosmos  *secp256k1.PrivKey
 	otherDn string
 	proposer []byte
+	plog     *parkLogger
+	bankDn   string // bank denom mapped to the ERC20 (funtoken cases)
 	O       evmtest.EthPrivKeyAcc // owner of a TestERC20 mapped to a bank denom (only for call_s2b cases)
 	erc20   gethcommon.Address
 }
@@ -169,10 +224,11 @@ const tailGasLimit = 100_000
 const tailAmount = 1_000_000
 
 func newWorld(t *testing.T, in *c09Input) *world {
-	a := app.NewNibiruApp(log.NewNopLogger(), tmdb.NewMemDB(), nil, true, sims.EmptyAppOptions{})
+	plog := &parkLogger{}
+	a := app.NewNibiruApp(plog, tmdb.NewMemDB(), nil, true, sims.EmptyAppOptions{})
 	a.InitChain(abci.RequestInitChain{ConsensusParams: sims.DefaultConsensusParams, AppStateBytes: genesisBytes(), Time: GenesisTime})
 	a.Commit()
-	w := &world{c: &Chain{App: a, TxCfg: app.MakeEncodingConfig().TxConfig, Time: GenesisTime}, pc: &yieldPC{}}
+	w := &world{c: &Chain{App: a, TxCfg: app.MakeEncodingConfig().TxConfig, Time: GenesisTime}, pc: &yieldPC{}, plog: plog}
 	w.S, w.X = detAcc(0x11), detAcc(0x22)
 	w.Y, w.Z = detAcc(0x33).EthAddr, detAcc(0x44).EthAddr
 	w.K = crypto.CreateAddress(w.S.EthAddr, 0)
@@ -199,14 +255,21 @@ func newWorld(t *testing.T, in *c09Input) *world {
 	}
 	must(c.Fund(w.X.NibiruAddr, sdk.NewCoins(sdk.NewCoin(w.otherDn, sdkmath.NewInt(1_000_000_000)))))
 	must(c.Fund(sdk.AccAddress(w.cosmos.PubKey().Address()), Unibi(1e12)))
-	for _, q := range in.Queries {
-		if q.Kind == "call_s2b" {
-			w.setupFunToken(t)
-			break
-		}
+	if needsFunToken(in) {
+		w.setupFunToken(t)
 	}
 	c.EndBlock()
 	return w
+}
+
+func needsFunToken(in *c09Input) bool {
+	for _, q := range in.Queries {
+		switch q.Kind {
+		case "call_s2b", "est_s2b", "trace_s2b", "call_s2e":
+			return true
+		}
+	}
+	return false
 }
 
 // setupFunToken deploys TestERC20 (owner O) and maps it to a bank denom, in the funding block.
@@ -232,6 +295,17 @@ func (w *world) setupFunToken(t *testing.T) {
 	erc := eth.EIP55Addr{Address: w.erc20}
 	if r := c.DeliverCosmos(setup, 5_000_000, Unibi(1_000_000), &evm.MsgCreateFunToken{FromErc20: &erc, Sender: saddr.String()}); r.Code != 0 {
 		t.Fatalf("create funtoken from erc20: %s", r.Log)
+	}
+	w.bankDn = "erc20/" + w.erc20.Hex()
+	// O converts some ERC20 into the bank denom, so that a request can send it back to the EVM (sendToEvm burns it)
+	ft := precompile.PrecompileAddr_FunToken
+	in, _ := embeds.SmartContract_FunToken.ABI.Pack("sendToBank", w.erc20, big.NewInt(1_000_000), w.O.EthAddr.Hex())
+	msg, err = c.SignEth(w.O, &evm.EvmTxArgs{Nonce: 1, GasLimit: 3_000_000, GasPrice: big.NewInt(gasPriceWei), To: &ft, Input: in})
+	if err != nil {
+		t.Fatal(err)
+	}
+	if r := c.DeliverEth(msg); r.Code != 0 {
+		t.Fatalf("setup sendToBank: %s", r.Log)
 	}
 }
 
@@ -410,6 +484,25 @@ func (w *world) doQuery(q c09Query) (res string, gas int64) {
 		a := evm.JsonTxArgs{From: &w.O.EthAddr, To: &ft, Input: &d}
 		bz, _ := json.Marshal(a)
 		return w.ethCall("/eth.evm.v1.Query/EthCall", bz), 0
+	case "est_s2b": // eth_estimateGas of the same sendToBank
+		in, _ := embeds.SmartContract_FunToken.ABI.Pack("sendToBank", w.erc20, big.NewInt(q.Amt), to.Hex())
+		d := hexutil.Bytes(in)
+		bz, _ := json.Marshal(evm.JsonTxArgs{From: &w.O.EthAddr, To: &ft, Input: &d})
+		return w.ethCall("/eth.evm.v1.Query/EstimateGas", bz), 0
+	case "trace_s2b": // debug_traceTransaction of a signed sendToBank from the ERC20 owner
+		in, _ := embeds.SmartContract_FunToken.ABI.Pack("sendToBank", w.erc20, big.NewInt(q.Amt), to.Hex())
+		msg, err := w.c.SignEth(w.O, &evm.EvmTxArgs{Nonce: 2, GasLimit: 2_000_000, GasPrice: big.NewInt(gasPriceWei), To: &ft, Input: in})
+		if err != nil {
+			return "err", 0
+		}
+		_, err = w.grpc("/eth.evm.v1.Query/TraceTx", &evm.QueryTraceTxRequest{Msg: msg, BlockNumber: w.c.App.LastBlockHeight() + int64(q.Bn),
+			BlockTime: w.c.Time, BlockMaxGas: -1, ChainId: w.c.ChainID.Int64()})
+		return errClass(err), 0
+	case "call_s2e": // eth_call of FunToken.sendToEvm(bankDenom, amt, to) from the ERC20 owner: bank coins burned, ERC20 released
+		in, _ := embeds.SmartContract_FunToken.ABI.Pack("sendToEvm", w.bankDn, big.NewInt(q.Amt), to.Hex())
+		d := hexutil.Bytes(in)
+		bz, _ := json.Marshal(evm.JsonTxArgs{From: &w.O.EthAddr, To: &ft, Input: &d})
+		return w.ethCall("/eth.evm.v1.Query/EthCall", bz), 0
 	case "est_xfer":
 		return w.ethCall("/eth.evm.v1.Query/EstimateGas", w.callArgs(to, unibiWei(q.Amt), nil)), 0
 	case "est_bank":
@@ -508,6 +601,7 @@ type runOut struct {
 	qres       []string
 	qgas       []int64
 	injected   bool
+	parked     bool
 	panicked   string
 }
 
@@ -542,6 +636,36 @@ func runReplica(t *testing.T, in *c09Input, withQueries bool) runOut {
 	if in.Point == "pre" {
 		inject()
 	}
+	var parkedDone chan struct{}
+	if in.Point == "parked" && withQueries && len(in.Queries) > 0 {
+		out.injected = true
+		reached := w.plog.arm(parkLines[in.Park])
+		parkedDone = make(chan struct{})
+		go func() {
+			defer close(parkedDone)
+			r, g := w.doQuery(in.Queries[0])
+			out.qres = append(out.qres, r)
+			out.qgas = append(out.qgas, g)
+		}()
+		select {
+		case <-reached:
+			out.parked = true // the request is now inside the precompile method
+		case <-parkedDone: // it finished without logging the line: an ordinary request before the tx
+		case <-time.After(30 * time.Second):
+		}
+	}
+	releaseParked := func() {
+		if parkedDone != nil {
+			w.plog.release()
+			select {
+			case <-parkedDone:
+			case <-time.After(30 * time.Second):
+				out.panicked += "parked request did not finish"
+			}
+			parkedDone = nil
+		}
+	}
+	defer releaseParked()
 	msg, err := c.SignEth(w.S, &evm.EvmTxArgs{Nonce: 0, GasLimit: 3_000_000, GasPrice: big.NewInt(gasPriceWei), Amount: unibiWei(in.Value), Input: w.initCode(in)})
 	if err != nil {
 		t.Fatal(err)
@@ -592,6 +716,7 @@ func runReplica(t *testing.T, in *c09Input, withQueries bool) runOut {
 	out.tx = append(out.tx, bz2...)
 	out.txOK = out.txOK && r2.Code == 0
 	out.gas2 = r2.GasUsed
+	releaseParked()
 	ctx := c.Ctx()
 	fc := c.App.AccountKeeper.GetModuleAddress("fee_collector")
 	for _, a := range []sdk.AccAddress{eth.EthAddrToNibiruAddr(w.K), w.X.NibiruAddr, eth.EthAddrToNibiruAddr(w.Y), eth.EthAddrToNibiruAddr(w.Z),
@@ -626,11 +751,8 @@ func runCase(t *testing.T, in *c09Input) c09Obs {
 	noq.Queries, noq.Point, noq.K = nil, "", 0
 	keyBz, _ := json.Marshal(noq)
 	key := string(keyBz)
-	for _, q := range in.Queries {
-		if q.Kind == "call_s2b" {
-			key += "+funtoken-setup" // the funding block of such cases also deploys and maps an ERC20
-			break
-		}
+	if needsFunToken(in) {
+		key += "+funtoken-setup" // the funding block of such cases also deploys and maps an ERC20
 	}
 	base, ok := baseCache[key]
 	if !ok {
@@ -642,7 +764,7 @@ func runCase(t *testing.T, in *c09Input) c09Obs {
 		HashEq: base.hash == with.hash, NextEq: base.next == with.next, TxEq: bytes.Equal(base.tx, with.tx),
 		TxOK: with.txOK, BaseOK: base.txOK, Base: base.bal, With: with.bal, Gas: [2]int64{base.gas, with.gas},
 		Gas2: [2]int64{base.gas2, with.gas2},
-		QRes: with.qres, QGas: with.qgas, Injected: with.injected,
+		QRes: with.qres, QGas: with.qgas, Injected: with.injected, Parked: with.parked,
 		Panic: with.panicked,
 	}
 }
@@ -651,7 +773,10 @@ func runCase(t *testing.T, in *c09Input) c09Obs {
 
 // kinds that perform a unibi bank operation (the only requests that reach Keeper.Bank.StateDB on the unchanged tree)
 var bankingKinds = []string{"call_bank", "est_bank", "trace_bank", "sim_evm", "sim_evm_bank", "sim_bank"}
-var plainKinds = []string{"call_xfer", "est_xfer", "call_bank_other", "call_s2b", "trace_call", "trace_block"}
+var plainKinds = []string{"call_xfer", "est_xfer", "call_bank_other", "call_s2b", "trace_call", "trace_block", "est_s2b", "trace_s2b", "call_s2e"}
+
+// requests that can be parked inside a FunToken method, with the bank keeper log line they reach there
+var parkable = []struct{ kind, park string }{{"call_s2b", "mint"}, {"est_s2b", "mint"}, {"trace_s2b", "mint"}, {"call_s2e", "burn"}}
 var readKinds = []string{"call_read", "grpc_bank", "grpc_evm_balance", "grpc_funtoken", "grpc_oracle"}
 
 func genQuery(r *Rng, kinds []string) c09Query {
@@ -680,6 +805,17 @@ func genCase(r *Rng) c09Input {
 		in.Steps = append(in.Steps[:pos], append([]c09Step{{Op: "yield"}}, in.Steps[pos:]...)...)
 	}
 	in.Revert = r.Chance(1, 8)
+	if r.Chance(1, 7) {
+		// parked request: the delivered tx must ENTER FunToken methods while the request is inside one
+		pk := parkable[r.Intn(len(parkable))]
+		in.Point, in.Park = "parked", pk.park
+		if in.Value < 10_000_000 {
+			in.Value = 30_000_000
+		}
+		in.Steps = append([]c09Step{{Op: "bank", To: r.Range(1, 3), Amt: int64(r.Range(1, 5)) * 1_000_000}}, in.Steps...)
+		in.Queries = []c09Query{{Kind: pk.kind, To: r.Range(2, 3), Amt: int64(r.Range(1, 9)) * 100}}
+		return in
+	}
 	switch r.Pick(12, 2, 2, 2) {
 	case 0:
 		in.Point, in.K = "yield", r.Intn(ny)
@@ -730,6 +866,12 @@ func openers() []c09Input {
 			in.Queries[0].Bn = 1
 			out = append(out, in)
 		}
+	}
+	// requests parked inside FunToken.sendToBank / sendToEvm while the block's txs (which enter FunToken.bankMsgSend) are delivered
+	for _, pk := range parkable {
+		out = append(out, c09Input{Value: 30_000_000, Bal: [3]int64{50_000_000, 1_000_000, 0},
+			Steps: []c09Step{{Op: "bank", To: 3, Amt: 2_000_000}, {Op: "yield"}, {Op: "bank", To: 2, Amt: 1_000_000}}, Point: "parked", Park: pk.park,
+			Queries: []c09Query{{Kind: pk.kind, To: 2, Amt: 500}}})
 	}
 	// a transfer made by the tx before the yield is overwritten by the query's view
 	out = append(out, c09Input{Value: 30_000_000, Bal: [3]int64{50_000_000, 1_000_000, 0},
